@@ -152,6 +152,8 @@ def oracle(w):
     try:
         if w.get("kind") == "transformed":
             return _oracle_transformed(w)
+        if w.get("kind") == "condhist":
+            return _oracle_condhist(w)
         return _oracle(w)
     except Exception as e:
         return True, "the implementation raised " + type(e).__name__ + ": " + str(e)[:120]
@@ -553,6 +555,186 @@ W_ASSIGNED = {"kind": "transformed", "transform": "assigned", "n": 1, "ncb": 1, 
 
 
 # ------------------------------------------------------------------------------------------
+# histories on ONE circuit object: the condition of a live gate object is edited BETWEEN simulations
+
+def _check_sim(qc, sim, how, ket, cb0, br, ncb, tol=1e-8):
+    """one simulation (`stat`: run_statistics, `run`: run with every prescribed record) against the branches `br`
+    of the CURRENT circuit description; `sim` None = through the circuit's own run / run_statistics"""
+    live = [b for b in br if b[1] > 1e-12]
+
+    def same_state(q, vec):
+        return q is not None and np.allclose(q.full().ravel(), vec / np.linalg.norm(vec), atol=tol)
+
+    arg = lambda: None if cb0 is None else list(cb0)
+    if how == "stat":
+        res = (qc if sim is None else sim).run_statistics(ket, cbits=arg())
+        probs = [float(p) for p in res.get_probabilities()]
+        if len(probs) != len(live):
+            return f"{len(probs)} branches returned, {len(live)} records have non-zero probability"
+        states = res.get_final_states()
+        for a, b in enumerate(live):
+            if abs(probs[a] - b[1]) > tol:
+                return f"record {b[0]}: probability {probs[a]!r}, Born rule gives {b[1]!r}"
+            if not same_state(states[a], b[2]):
+                return f"record {b[0]} (bits {b[3]}): final state is not the branch vector of the current circuit"
+        if ncb and [list(map(int, x)) for x in res.get_cbits()] != [b[3] for b in live]:
+            return "classical bits of the records differ"
+        return None
+    from qutip_qip.circuit import CircuitSimulator
+    s_ = sim if sim is not None else CircuitSimulator(qc)
+    for b in br:
+        if b[1] <= 1e-12:
+            continue
+        r = s_.run(ket, cbits=arg(), measure_results=tuple(b[0])) if b[0] else s_.run(ket, cbits=arg())
+        if abs(float(r.get_probabilities(0)) - b[1]) > tol or not same_state(r.get_final_states(0), b[2]):
+            return f"run with prescribed record {b[0]} (bits {b[3]}): not the branch of the current circuit"
+    return None
+
+
+def _oracle_condhist(w):
+    """One circuit object simulated several times; between the simulations the user assigns the public attributes
+    `classical_control_value` / `classical_controls` (sometimes targets) of LIVE gate objects.  Every simulation — on
+    the simulator that was already used, on a new simulator, or through QubitCircuit.run_statistics — must give the
+    branches of the circuit AS IT IS DESCRIBED NOW."""
+    import copy, qutip
+    from qutip_qip.circuit import CircuitSimulator
+    n, ncb = w["n"], w["ncb"]
+    try:
+        qc = build_from_witness(w)
+    except Exception as e:
+        return False, "not constructible: " + type(e).__name__
+    psi0 = np.array([complex(a, b) for a, b in w["init"]], dtype=complex)
+    psi0 = psi0 / np.linalg.norm(psi0)
+    ket = qutip.Qobj(psi0.reshape(-1, 1), dims=[[2] * n, [1] * n])
+    cur = copy.deepcopy(w["ops"])
+    used = CircuitSimulator(qc)
+    for k, st in enumerate(w["stages"]):
+        for e in st.get("set") or []:
+            g, o = qc.gates[e["i"]], cur[e["i"]]
+            if "cc" in e:
+                g.classical_controls = None if e["cc"] is None else list(e["cc"])
+                o["cc"] = e["cc"]
+            if "ccv" in e:
+                g.classical_control_value = e["ccv"]
+                o["ccv"] = e["ccv"]
+            if "targets" in e:
+                g.targets = list(e["targets"])
+                o["targets"] = list(e["targets"])
+                if e.get("controls"):
+                    g.controls = list(e["controls"])
+                    o["controls"] = list(e["controls"])
+        br = branches(dict(w, ops=cur), w.get("cbits"))
+        sim = {"same": used, "new": CircuitSimulator(qc), "circuit": None}[st.get("sim", "same")]
+        try:
+            d = _check_sim(qc, sim, st.get("how", "stat"), ket, w.get("cbits"), br, ncb)
+        except Exception as ex:
+            d = "the implementation raised " + type(ex).__name__ + ": " + str(ex)[:80]
+        if d:
+            conds = [(o["name"], o["cc"], o["ccv"]) for o in cur if "M" not in o and o.get("cc") is not None]
+            edits = [st2.get("set") for st2 in w["stages"][:k + 1] if st2.get("set")]
+            return True, (f"simulation {k} ({st.get('how', 'stat')} on {st.get('sim', 'same')} simulator) after the edits "
+                          f"{json.dumps(edits)}: {d} (conditions the circuit shows now: {conds})")
+    return False, f"{len(w['stages'])} simulations of one circuit object, conditions edited in between: all agree"
+
+
+def rand_condhist(rng):
+    w = rand_witness(rng, general=True)
+    if w["ncb"] == 0:
+        w["ncb"] = rng.randint(1, 3)
+    ncb, n = w["ncb"], w["n"]
+    ops = [o for o in w["ops"] if "M" in o or not o.get("cc") or all(c < ncb for c in o["cc"])]
+    # at least one measurement writing a bit and one conditioned gate after it
+    if not any("M" in o for o in ops):
+        ops.insert(0, {"M": rng.randrange(n), "store": rng.randrange(ncb)})
+        ops.insert(0, {"name": "SNOT", "targets": [ops[0]["M"]], "controls": None, "arg": None, "cc": None, "ccv": None})
+    if not any("M" not in o and o.get("cc") for o in ops):
+        cc = rng.sample(range(ncb), rng.randint(1, ncb))
+        ops.append({"name": "X", "targets": [rng.randrange(n)], "controls": None, "arg": None, "cc": cc,
+                    "ccv": rng.randrange(2 ** len(cc))})
+    for o in ops:
+        if "M" not in o and o.get("cc") and o.get("ccv") is None:
+            o["ccv"] = 2 ** len(o["cc"]) - 1
+    cpos = [i for i, o in enumerate(ops) if "M" not in o and o.get("cc")]
+    stages = [{"set": [], "sim": "same", "how": rng.choice(["stat", "run"])}]
+    cur = {i: (list(ops[i]["cc"]), ops[i]["ccv"]) for i in cpos}
+    for _ in range(rng.randint(1, 3)):
+        i = rng.choice(cpos)
+        cc, v = cur[i]
+        e = {"i": i}
+        if rng.random() < 0.7 and len(cc) >= 1:
+            e["ccv"] = rng.choice([x for x in range(2 ** len(cc)) if x != v] or [v])
+        else:
+            # other classical bits, the same number of them
+            e["cc"] = rng.sample(range(ncb), len(cc)) if ncb >= len(cc) else cc
+            if rng.random() < 0.5:
+                e["ccv"] = rng.randrange(2 ** len(cc))
+        cur[i] = (e.get("cc", cc), e.get("ccv", v))
+        stages.append({"set": [e], "sim": rng.choice(["same", "same", "new", "circuit"]), "how": rng.choice(["stat", "stat", "run"])})
+    return {"kind": "condhist", "n": n, "ncb": ncb, "ops": ops, "init": w["init"], "cbits": w["cbits"], "stages": stages}
+
+
+def shrink(w, fails, budget=80):
+    """greedy: fewer simulations, fewer operations, simpler initial data — as long as the oracle still fails"""
+    import copy
+    calls = [0]
+
+    def bad(x):
+        calls[0] += 1
+        try:
+            return calls[0] <= budget and fails(x)
+        except Exception:
+            return False
+
+    w = copy.deepcopy(w)
+    changed = True
+    while changed and calls[0] < budget:
+        changed = False
+        for k in reversed(range(len(w.get("stages", [])))):
+            if len(w["stages"]) > 1:
+                x = copy.deepcopy(w)
+                dropped = x["stages"].pop(k)
+                if k < len(x["stages"]) and dropped.get("set"):
+                    x["stages"][k]["set"] = dropped["set"] + (x["stages"][k].get("set") or [])
+                if bad(x):
+                    w, changed = x, True
+        used = {e["i"] for st in w.get("stages", []) for e in (st.get("set") or [])}
+        for i in reversed(range(len(w["ops"]))):
+            if i in used or len(w["ops"]) <= 1:
+                continue
+            x = copy.deepcopy(w)
+            del x["ops"][i]
+            for st in x.get("stages", []):
+                for e in st.get("set") or []:
+                    if e["i"] > i:
+                        e["i"] -= 1
+            if bad(x):
+                w, changed = x, True
+                used = {e["i"] for st in w.get("stages", []) for e in (st.get("set") or [])}
+        for key, val in (("cbits", None), ("init", [[1, 0]] + [[0, 0]] * (2 ** w["n"] - 1))):
+            if w.get(key) != val:
+                x = dict(copy.deepcopy(w), **{key: val})
+                if bad(x):
+                    w, changed = x, True
+        for st in w.get("stages", []):
+            for key, val in (("sim", "same"), ("how", "stat")):
+                if st.get(key) != val:
+                    x = copy.deepcopy(w)
+                    x["stages"][w["stages"].index(st)][key] = val
+                    if bad(x):
+                        w, changed = x, True
+                        break
+    return w
+
+
+W_CONDHIST = {"kind": "condhist", "n": 2, "ncb": 1, "cbits": None, "init": [[1, 0], [0, 0], [0, 0], [0, 0]],
+              "ops": [{"name": "SNOT", "targets": [0], "controls": None, "arg": None, "cc": None, "ccv": None},
+                      {"M": 0, "store": 0},
+                      {"name": "X", "targets": [1], "controls": None, "arg": None, "cc": [0], "ccv": 1}],
+              "stages": [{"set": [], "sim": "same", "how": "stat"},
+                         {"set": [{"i": 2, "ccv": 0}], "sim": "same", "how": "stat"}]}
+
+
+# ------------------------------------------------------------------------------------------
 # witness generators for the oracle
 
 ORACLE_1Q = ["X", "Y", "Z", "SNOT", "S", "T", "RX", "RY", "RZ"]
@@ -747,6 +929,43 @@ class C02(PropertyCheck):
         return {"kind": "branches", "n": case["n"], "ncb": case["ncb"], "ops": ops, "init": init, "cbits": cb,
                 "check": "all"}
 
+    @staticmethod
+    def _hist_witness(case):
+        """a history case whose conditions are edited between calls, as a `condhist` oracle witness: the versions of the
+        op list in the order the history visits them, a simulation after each edit (shrunk when it fails)"""
+        if not case.get("alts"):
+            return C02._to_witness(case)
+        base = C02._to_witness(dict(case, assign=False))
+        if base is None or base.get("kind") != "branches":
+            return None
+        versions = S.versions_of(case)
+        wops = lambda ops: C02._to_witness(dict(case, ops=ops, assign=False, alts=None))["ops"]
+        stages = [{"set": [], "sim": "same", "how": "stat"}]
+        cur = 0
+        for c in case["calls"]:
+            if c[0] != "edit":
+                continue
+            a, b = wops(versions[cur]), wops(versions[c[1]])
+            st = []
+            for i, (x, y) in enumerate(zip(a, b)):
+                if x != y and "M" not in x and "M" not in y and x["name"] == y["name"]:
+                    e = {"i": i, "cc": y["cc"], "ccv": (y["ccv"] if y["ccv"] is not None or y["cc"] is None
+                                                        else 2 ** len(y["cc"]) - 1)}
+                    if x["targets"] != y["targets"] or x["controls"] != y["controls"]:
+                        e["targets"], e["controls"] = y["targets"], y["controls"]
+                    st.append(e)
+            stages.append({"set": st, "sim": "same", "how": "stat"})
+            stages.append({"set": [], "sim": "new", "how": "run"})
+            cur = c[1]
+        w = {"kind": "condhist", "n": base["n"], "ncb": base["ncb"], "ops": base["ops"], "init": base["init"],
+             "cbits": base["cbits"], "stages": stages}
+        try:
+            if oracle(w)[0]:
+                w = shrink(w, lambda x: oracle(x)[0])
+        except Exception:
+            pass
+        return w
+
     def correspondence(self, ctx, res):
         rng = ctx.rng
         self.cfg = S.probe_cfg(paths.REPO)
@@ -878,7 +1097,7 @@ class C02(PropertyCheck):
                         if not all(o["cc"] is None or o["ccv"] is None or 0 <= o["ccv"] < 2 ** len(o["cc"]) for o in ops if "g" in o):
                             del case["assign"]
             cases.append(case)
-        self._run_cases(ctx, res, cases, lambda c, i: tag(c, i) + ["stream=history"])
+        self._run_cases(ctx, res, cases, lambda c, i: tag(c, i) + ["stream=history"], self._hist_witness)
         ng = sum(1 for c in cases if c.get("_garbage"))
         res.notes.append(f"{ng} histories were compared only up to the call after which `_state` is an array of a wrong "
                          "shape (a gate stepped on the matrix-shaped array left by the `state` property, >= 2 qubits)")
@@ -945,7 +1164,7 @@ class C02(PropertyCheck):
         rng = ctx.rng
         skip = self._skip_classes()
         t0 = time.time()
-        fixed = [W_ALIAS, W_BIGCCV, W_DEFAULT3, W_DEFAULT4, W_RESOLVED, W_ASSIGNED] + ([] if "dm-feedforward" in skip else [W_DMFF]) + \
+        fixed = [W_ALIAS, W_BIGCCV, W_DEFAULT3, W_DEFAULT4, W_RESOLVED, W_ASSIGNED, W_CONDHIST] + ([] if "dm-feedforward" in skip else [W_DMFF]) + \
             ([] if "C02-4" in pending() else [W_ADDCIRC])
         for w in fixed:
             f, d = oracle(w)
@@ -954,6 +1173,14 @@ class C02(PropertyCheck):
         i = 0
         while time.time() - t0 < budget_s and (count is None or i < count):
             i += 1
+            if rng.random() < 0.2:
+                # one circuit object simulated several times, the condition of a live gate object edited in between
+                w = rand_condhist(rng)
+                f, d = oracle(w)
+                if f:
+                    w = shrink(w, lambda x: oracle(x)[0])
+                    yield w, oracle(w)[1]
+                continue
             if rng.random() < 0.4:
                 # conditions assigned on the gate objects / circuits that come out of the library's transformations,
                 # under every classical state and record
